@@ -358,7 +358,7 @@ def gen_grammar(r: random.Random, allow_leftrec=True):
             return {"k": "rule", "n": r.choice(names)}
         alts = []
         for _ in range(r.randint(1, 3)):
-            its = [atom(depth + 1, ri) for _ in range(r.randint(1, 2))]
+            its = [(item(depth + 1, ri) if r.random() < 0.3 else atom(depth + 1, ri)) for _ in range(r.randint(1, 2))]
             action = None
             if r.random() < 0.35:
                 action = "tuple"
